@@ -151,6 +151,42 @@ theorem key_eq_iff (H : Bytes → Bytes) (hH : ∀ x y, H x = H y → x = y) (hU
     unfold key
     rw [e1, e2, e3]
 
+/-- The same without any global assumption on the hash: if two well-formed states receive the same key then they are
+    equal states **or an explicit collision of `H` is exhibited** on the streams of these two states (the form DESIGN §4
+    promises; `key_eq_iff` is the special case of a collision-free `H`). -/
+theorem key_eq_state_or_collision (H : Bytes → Bytes) (hU : ∀ x, cUnderscore ∉ H x)
+    (a b : KeyState) (wa : WFState a) (wb : WFState b) (h : key H a = key H b) :
+    StateEq a b ∨ (enc a ≠ enc b ∧ H (enc a) = H (enc b)) ∨
+      (encFiles a ≠ encFiles b ∧ H (encFiles a) = H (encFiles b)) := by
+  unfold key at h
+  have fin : enc a = enc b → (a.inputs.isEmpty = b.inputs.isEmpty) →
+      (a.inputs.isEmpty = false → encFiles a = encFiles b) → StateEq a b := by
+    intro he hie hf
+    obtain ⟨h1, h2, h3, h4, h5, h6, h7⟩ := enc_injective a b wa wb he
+    have hin := (compactB_sort_eq_iff _ _).mp h3
+    refine ⟨h1, h2, hin, ?_, (sortBytes_eq_iff _ _).mp h4, (sortKV_eq_iff _ _ wa.depKeys).mp h5,
+      (sortKV_eq_iff _ _ wa.fpKeys).mp h6, h7⟩
+    cases hia : a.inputs.isEmpty with
+    | true => intro p hp; simp [List.isEmpty_iff.mp hia] at hp
+    | false => exact encFiles_injective a b wa wb h3 (hf hia)
+  cases hia : a.inputs.isEmpty <;> cases hib : b.inputs.isEmpty <;>
+    simp only [hia, hib, Bool.false_eq_true, if_false, if_true] at h
+  · obtain ⟨e1, e2⟩ := append_sep_inj (hU _) (hU _) h
+    by_cases he : enc a = enc b
+    · by_cases hf : encFiles a = encFiles b
+      · exact Or.inl (fin he (by rw [hia, hib]) (fun _ => hf))
+      · exact Or.inr (Or.inr ⟨hf, e2⟩)
+    · exact Or.inr (Or.inl ⟨he, e1⟩)
+  · have : cUnderscore ∈ H (enc b) := by
+      rw [← h]; exact List.mem_append_right _ List.mem_cons_self
+    exact absurd this (hU _)
+  · have : cUnderscore ∈ H (enc a) := by
+      rw [h]; exact List.mem_append_right _ List.mem_cons_self
+    exact absurd this (hU _)
+  · by_cases he : enc a = enc b
+    · exact Or.inl (fin he (by rw [hia, hib]) (fun hf => by rw [hia] at hf; cases hf))
+    · exact Or.inr (Or.inl ⟨he, h⟩)
+
 /-- The key does not depend on declaration / glob order, on duplicates among the resolved inputs, or on
     map iteration order (no hypothesis on the hash function is needed for this direction). -/
 theorem key_order_independent (H : Bytes → Bytes) (a b : KeyState) (wa : WFState a)
